@@ -33,6 +33,9 @@ pub struct Case {
     /// stat() by name of this directory (relative path) fails while the walk runs
     /// (syscall shim preloaded into this process); only with same_file_system.
     pub stat_fault: Option<String>,
+    /// opendir() of this directory (relative path) fails while the walk runs: the directory is
+    /// reported, followed by an error, and not listed.
+    pub opendir_fault: Option<String>,
 }
 
 #[derive(Clone, Debug, Default)]
@@ -360,6 +363,7 @@ fn gen_case_c07(sub: u64, thorough: bool) -> Case {
         strict: false,
         readdir_fault: (0, 1),
         stat_fault: None,
+        opendir_fault: None,
     }
     .with_faults(&mut rng)
 }
@@ -369,6 +373,14 @@ impl Case {
         if rng.chance(1, 8) {
             self.readdir_fault = (1, 6);
             self.visitor.skip_on_error = rng.chance(1, 2);
+        } else if rng.chance(1, 10) && shim::available() {
+            // a size limit is set and the stat of one listed file fails: its size is unknown,
+            // the file is handed out all the same
+            let files: Vec<&Node> = self.tree.nodes.iter().filter(|n| matches!(n.kind, NodeKind::File(_)) && !self.tree.roots.contains(&n.path)).collect();
+            if !files.is_empty() {
+                self.stat_fault = Some(files[rng.below(files.len())].path.clone());
+                self.cfg.max_filesize = Some(100);
+            }
         } else if rng.chance(1, 8) && shim::available() {
             // the device check of one directory fails (same_file_system): the directory is
             // reported together with an error and not descended into; nothing else is lost
@@ -458,6 +470,14 @@ fn gen_case_c06(sub: u64, thorough: bool) -> Case {
             stat_fault = Some(files[rng.below(files.len())].path.clone());
         }
     }
+    // a directory that was listed cannot be opened: both walkers report it, then the error
+    let mut opendir_fault = None;
+    if stat_fault.is_none() && rng.chance(1, 8) && shim::available() {
+        let dirs: Vec<&Node> = tree.nodes.iter().filter(|n| n.kind == NodeKind::Dir).collect();
+        if !dirs.is_empty() {
+            opendir_fault = Some(dirs[rng.below(dirs.len())].path.clone());
+        }
+    }
     Case {
         tree,
         cfg,
@@ -470,6 +490,7 @@ fn gen_case_c06(sub: u64, thorough: bool) -> Case {
         strict: false,
         readdir_fault: (0, 1),
         stat_fault,
+        opendir_fault,
     }
 }
 
@@ -514,7 +535,7 @@ fn check_c07(case: &Case, base: &Path, r: &RunResult) -> Option<Verdict> {
         return Some(Verdict { class: "skip-ignored".into(), summary: format!("entry visited beneath a skipped directory: {d}") });
     }
     let mut expected = expected_plain(base, &case.tree, &case.visitor.skip);
-    if let (Some(d), true) = (&case.stat_fault, r.stat_faults > 0) {
+    if let (Some(d), true) = (&case.stat_fault, r.stat_faults > 0 && case.tree.nodes.iter().any(|n| Some(&n.path) == case.stat_fault.as_ref() && n.kind == NodeKind::Dir)) {
         // the directory whose device check failed is still handed out, but not entered
         expected.retain(|p| !p.starts_with(&format!("{d}/")));
     }
@@ -529,7 +550,11 @@ fn check_c07(case: &Case, base: &Path, r: &RunResult) -> Option<Verdict> {
                 let lost: Vec<_> = expected.difference(&seen_ok).take(5).cloned().collect();
                 return Some(Verdict { class: "lost-entry".into(), summary: format!("{} entries never visited, e.g. {:?}", expected.len() - seen_ok.len(), lost) });
             }
-            if n_err as u64 != r.stat_faults {
+            // (a stat that fails at the size check leaves the size unknown: no error, the file
+            // is handed out; a stat that fails at the device check of a directory is reported)
+            let on_dir = case.stat_fault.as_ref().map_or(false, |p| case.tree.nodes.iter().any(|n| &n.path == p && n.kind == NodeKind::Dir));
+            let expected_errs = if on_dir { r.stat_faults } else { 0 };
+            if n_err as u64 != expected_errs {
                 return Some(Verdict { class: if r.stat_faults == 0 { "spurious-error" } else { "fault-not-reported" }.into(), summary: format!("{n_err} errors reported, {} stat faults fired", r.stat_faults) });
             }
         } else {
@@ -683,6 +708,7 @@ fn case_to_json(case: &Case) -> Value {
         },
         "readdir_fault": [case.readdir_fault.0, case.readdir_fault.1],
         "stat_fault": case.stat_fault,
+        "opendir_fault": case.opendir_fault,
     })
 }
 
@@ -702,6 +728,7 @@ fn case_from_json(v: &Value) -> Case {
         strict: v["sched"]["strict"].as_bool().unwrap_or(false),
         readdir_fault: (v["readdir_fault"][0].as_u64().unwrap_or(0) as u32, v["readdir_fault"][1].as_u64().unwrap_or(1).max(1) as u32),
         stat_fault: v["stat_fault"].as_str().map(String::from),
+        opendir_fault: v["opendir_fault"].as_str().map(String::from),
     }
 }
 
@@ -723,11 +750,18 @@ fn evaluate(prop: &str, case: &Case, scratch: &Path) -> (RunResult, Option<Verdi
     }
     let _ = std::fs::remove_dir_all(&base);
     let xdev = materialise(&base, &case.tree);
-    if let Some(d) = &case.stat_fault {
+    if case.stat_fault.is_some() || case.opendir_fault.is_some() {
         if !shim::available() {
-            harness_error("this case injects a stat fault but the syscall shim is not loaded");
+            harness_error("this case injects a syscall fault but the syscall shim is not loaded");
         }
-        shim::set(&base, &format!("stat_err=/{d}:13"));
+        let mut plan = vec![];
+        if let Some(d) = &case.stat_fault {
+            plan.push(format!("stat_err=/{d}:13"));
+        }
+        if let Some(d) = &case.opendir_fault {
+            plan.push(format!("opendir_err=/r/{d}:13"));
+        }
+        shim::set(&base, &plan.join(";"));
     }
     let mut r = run_parallel(&base, case);
     if case.stat_fault.is_some() {
@@ -742,8 +776,10 @@ fn evaluate(prop: &str, case: &Case, scratch: &Path) -> (RunResult, Option<Verdi
         let serial = run_serial(&base, &case.tree, &case.cfg);
         shim::set(&base, "");
         tree::SIZE_UNKNOWN.with(|c| *c.borrow_mut() = case.stat_fault.clone());
+        tree::UNLISTABLE.with(|c| *c.borrow_mut() = case.opendir_fault.clone());
         let v = check_c06(case, &base, &r, &serial);
         tree::SIZE_UNKNOWN.with(|c| *c.borrow_mut() = None);
+        tree::UNLISTABLE.with(|c| *c.borrow_mut() = None);
         v
     };
     drop(xdev);
